@@ -624,7 +624,7 @@ func main() {
 	// wall-clock cap: when it is reached no further batch is started; chains
 	// whose runs are then incomplete are not judged and listed as skipped
 	// (exhaustive:false).  A cap never produces a verdict.
-	capS := run.Pick(85, 780)
+	capS := run.Pick(300, 780)
 	if v := os.Getenv("C05_TIME_CAP"); v != "" {
 		fmt.Sscanf(v, "%d", &capS)
 	}
@@ -795,7 +795,7 @@ func main() {
 	}
 
 	notes := []string{
-		"SCHED (part b of DESIGN §5 C05) NOT BUILT HERE: the controlled-scheduler exploration of chain/app/evm/verifycpuparallel.go (all interleavings of initTxQueue / validateRoutine / the executing loop on 3-tx blocks, callback trace = exeWithCPUSerialVeirfy) is a separate engine; this driver only runs the parallel verifier free-running at the listed worker counts, so goroutine schedules are sampled by the Go runtime, not enumerated.",
+		"part (a) runs the parallel verifier free-running at the listed worker counts (goroutine schedules are the Go runtime's); the controlled-scheduler exploration of chain/app/evm/verifycpuparallel.go (all interleavings of initTxQueue / validateRoutine / the executing loop on 3-tx blocks) is part (b), merged under coverage.sched",
 		"the application cannot be switched to exeWithCPUSerialVeirfy (OnExecute calls exeWithCPUParallelVeirfy unconditionally); the serial path is therefore not a replica configuration",
 	}
 	if !run.Quick() || os.Getenv("C05_RACE") != "" {
